@@ -132,7 +132,7 @@ CHECKS = {
 # what was added to each check after its first description was written (DESIGN.md §8.3 / §8.4 say why)
 ADDED = {
     "C01": "Both arguments in every documented form: packages saved to a stream, a path or a real file object, opened from a path, a directory, an in-memory stream with its cursor at 0 / 4 / the end, or a real file object. Part names with percent-escapes; two sources in different directories spelling equal Targets for different parts. XML parts of non-Office vocabularies (application/xml, custom XML) compared by plain C14N, blanks kept.",
-    "C02": "Types of loaded parts are compared with the INPUT's own [Content_Types] at every save; every corpus deck is a start state once per run; a third of the non-default histories start with a save before any access; re-opens use the stream as the save left it; ops include re-assigning the same link / jump, dropping a layout and re-adding its image, same-stream / same-path saves. Relationship ids of loaded decks shifted / gapped / not of the form rId<N> (renumber_rids); manufactured decks whose notes-slide names are assigned by the harness at zip level; blank hyperlink Targets. Manufactured decks also re-spell internal Targets (absolute, './', up-and-down), carry slide ids out of order and grafted parts of unknown kinds. Start decks with a slide that is still related but no longer listed, and with a voided relationship (Target NULL) the slide's XML still uses; references unresolvable in the input are baseline. Slides deleted by the usual recipe (relationship dropped, p:sldId removed) among the operations; manufactured start decks that keep their slides in a folder other than /ppt/slides.",
+    "C02": "Types of loaded parts are compared with the INPUT's own [Content_Types] at every save; every corpus deck is a start state once per run; a third of the non-default histories start with a save before any access; re-opens use the stream as the save left it; ops include re-assigning the same link / jump, dropping a layout and re-adding its image, same-stream / same-path saves. Relationship ids of loaded decks shifted / gapped / not of the form rId<N> (renumber_rids); manufactured decks whose notes-slide names are assigned by the harness at zip level; blank hyperlink Targets. Manufactured decks also re-spell internal Targets (absolute, './', up-and-down), carry slide ids out of order and grafted parts of unknown kinds. Start decks with a slide that is still related but no longer listed, and with a voided relationship (Target NULL) the slide's XML still uses; references unresolvable in the input are baseline. Slides deleted by the usual recipe (relationship dropped, p:sldId removed) among the operations; manufactured start decks that keep their slides in a folder other than /ppt/slides. A directed unit: loaded decks whose image / media members spell their extension in another case, then one more part of that extension.",
     "C03": "Plus 64 / 3 000 histories on targets saturated with schema-permitted siblings (vlib/instgen.py, profile sat), a sweep assigning every in-domain value of every C09-table row and validating the part, and the documented rejections of that table re-validated. The fill operation reads colours after switching kind and assigns an unusable colour. fit_text (explicit font file) among the text-frame operations when a DejaVu font is installed. Positions given as floats (what Length arithmetic yields) to every add_* call. begin_connect / end_connect with an index no unsignedInt holds (a documented rejection). A directed unit calls every shape-adding entry point (slide and group collections) with float geometry of three kinds and validates what it wrote.",
     "C04": "A seventh prior state holds the assigned string in one run (reads alike, built differently); a third of the assignments go through a proxy object that was assigned through before; non-NFC text among the tokens. The kept proxy is read before it is assigned through. Prior states with an equation (mc:AlternateContent inside a:p) and with a comment inside a:t; the independent reader takes string values and counts the text of children of a:p it has no name for.",
     "C05": "Two links to near-variant addresses on one slide, strings of exactly the documented maximum length, non-NFC / non-NFKC strings, the same image bytes under a second file name (open finding). Strings spelling enumeration member names / values or Python constants. Two links sharing an address, one then cleared or re-pointed. Number format set on the categories before any category exists. The string in the extension position of a movie's file name; every saved package is read as a URI-conforming consumer would (member names against the OPC part-name grammar, Targets resolved as URI references: '#' and '?' are syntax).",
